@@ -1188,18 +1188,14 @@ package cose
 //@   loop 1 invariant seen_dom [C14]: forall q any :: q in seen ==> q in k.Params
 //@   loop 1 invariant tmp_fresh [C14]: tmp != nil && fresh(tmp) && fresh(existing) && existing != nil && int64(1) in tmp
 //@   loop 1 invariant existing_fwd [C14]: forall q any :: q in seen ==> normKey(q) in existing
-//@   callsite pad_x_len [C14] EncMode.Marshal#1: int64Labels(k.Params) && k.Type == 2 && sizeOf(pCurve(k.Params)) > 0 && len(pBytes(k.Params, -2)) > 0 && len(pBytes(k.Params, -2)) <= sizeOf(pCurve(k.Params))
-//@         ==> arg1 is map[any]any && int64(-2) in arg1.(map[any]any) && any_isbytes(arg1.(map[any]any)[int64(-2)]) && len(anybytes(arg1.(map[any]any)[int64(-2)])) == sizeOf(pCurve(k.Params))
-//@   callsite pad_x_val [C14] EncMode.Marshal#1: int64Labels(k.Params) && k.Type == 2 && sizeOf(pCurve(k.Params)) > 0 && len(pBytes(k.Params, -2)) > 0 && len(pBytes(k.Params, -2)) <= sizeOf(pCurve(k.Params))
-//@         ==> bytes(anybytes(arg1.(map[any]any)[int64(-2)])[sizeOf(pCurve(k.Params)) - len(pBytes(k.Params, -2)):]) == bytes(pBytes(k.Params, -2))
-//@   callsite pad_x_zeros [C14] EncMode.Marshal#1: int64Labels(k.Params) && k.Type == 2 && sizeOf(pCurve(k.Params)) > 0 && len(pBytes(k.Params, -2)) > 0 && len(pBytes(k.Params, -2)) <= sizeOf(pCurve(k.Params))
-//@         ==> (forall i Int :: 0 <= i && i < sizeOf(pCurve(k.Params)) - len(pBytes(k.Params, -2)) ==> anybytes(arg1.(map[any]any)[int64(-2)])[i] == 0)
-//@   callsite pad_y_len [C14] EncMode.Marshal#1: int64Labels(k.Params) && k.Type == 2 && sizeOf(pCurve(k.Params)) > 0 && len(pBytes(k.Params, -3)) > 0 && len(pBytes(k.Params, -3)) <= sizeOf(pCurve(k.Params))
-//@         ==> arg1 is map[any]any && int64(-3) in arg1.(map[any]any) && any_isbytes(arg1.(map[any]any)[int64(-3)]) && len(anybytes(arg1.(map[any]any)[int64(-3)])) == sizeOf(pCurve(k.Params))
-//@   callsite pad_y_val [C14] EncMode.Marshal#1: int64Labels(k.Params) && k.Type == 2 && sizeOf(pCurve(k.Params)) > 0 && len(pBytes(k.Params, -3)) > 0 && len(pBytes(k.Params, -3)) <= sizeOf(pCurve(k.Params))
-//@         ==> bytes(anybytes(arg1.(map[any]any)[int64(-3)])[sizeOf(pCurve(k.Params)) - len(pBytes(k.Params, -3)):]) == bytes(pBytes(k.Params, -3))
-//@   callsite pad_y_zeros [C14] EncMode.Marshal#1: int64Labels(k.Params) && k.Type == 2 && sizeOf(pCurve(k.Params)) > 0 && len(pBytes(k.Params, -3)) > 0 && len(pBytes(k.Params, -3)) <= sizeOf(pCurve(k.Params))
-//@         ==> (forall i Int :: 0 <= i && i < sizeOf(pCurve(k.Params)) - len(pBytes(k.Params, -3)) ==> anybytes(arg1.(map[any]any)[int64(-3)])[i] == 0)
+//@   callsite pad_x [C14] EncMode.Marshal#1: k.Type == 2 && sizeOf(pCurve(k.Params)) > 0 && len(pBytes(k.Params, -2)) > 0 && len(pBytes(k.Params, -2)) < sizeOf(pCurve(k.Params))
+//@         ==> arg1 is map[any]any && int64(-2) in arg1.(map[any]any) && paddedTo(arg1.(map[any]any)[int64(-2)], pBytes(k.Params, -2), sizeOf(pCurve(k.Params)))
+//@   callsite pad_y [C14] EncMode.Marshal#1: k.Type == 2 && sizeOf(pCurve(k.Params)) > 0 && len(pBytes(k.Params, -3)) > 0 && len(pBytes(k.Params, -3)) < sizeOf(pCurve(k.Params))
+//@         ==> arg1 is map[any]any && int64(-3) in arg1.(map[any]any) && paddedTo(arg1.(map[any]any)[int64(-3)], pBytes(k.Params, -3), sizeOf(pCurve(k.Params)))
+//@   callsite full_x [C14] EncMode.Marshal#1: int64Labels(k.Params) && k.Type == 2 && sizeOf(pCurve(k.Params)) > 0 && len(pBytes(k.Params, -2)) == sizeOf(pCurve(k.Params))
+//@         ==> arg1 is map[any]any && int64(-2) in arg1.(map[any]any) && arg1.(map[any]any)[int64(-2)] == k.Params[int64(-2)]
+//@   callsite full_y [C14] EncMode.Marshal#1: int64Labels(k.Params) && k.Type == 2 && sizeOf(pCurve(k.Params)) > 0 && len(pBytes(k.Params, -3)) == sizeOf(pCurve(k.Params))
+//@         ==> arg1 is map[any]any && int64(-3) in arg1.(map[any]any) && arg1.(map[any]any)[int64(-3)] == k.Params[int64(-3)]
 //@   callsite common [C08, C14, C15] EncMode.Marshal#1: arg1 is map[any]any && int64(1) in arg1.(map[any]any)
 
 //@ func KeyOpFromString
